@@ -31,7 +31,10 @@ lines.append("| seed | breaks | what it needs to manifest | caught by | first vi
 lines.append("|---|---|---|---|---|")
 for f in sorted(glob.glob(os.path.join(ROOT, "seeded", "*", "meta.json"))):
     m = json.load(open(f))
-    lines.append(f"| {m['seed']} | {m['breaks_property']} | {m['needs_to_manifest'].replace('|','/')} | {m['our_checks']['caught_by']} | {m['our_checks'].get('first_violation','').replace('|','/')[:140]} |")
+    oc = m['our_checks']
+    caught_txt = oc["caught_by"] + (" -> **now:** " + oc['after_strengthening']['caught_by'] if 'after_strengthening' in oc else "")
+    first = (oc.get('after_strengthening') or oc).get('first_violation', '')
+    lines.append(f"| {m['seed']} | {m['breaks_property']} | {m['needs_to_manifest'].replace('|','/')} | {caught_txt} | {first.replace('|','/')[:140]} |")
 text = "\n".join(lines) + "\n"
 p = os.path.join(ROOT, "DESIGN.md")
 s = open(p).read()
